@@ -15,7 +15,7 @@ CORRESPONDENCE = ("every model function of lean/LettreVerif/Model is total (acce
 RULE = ("np / npdbg: each of " + str(len(ENTRIES)) + " public entry points (FromStr / parse / new / builder / encode / sign / serde) on structure-aware "
         "mutations of valid inputs, on byte soup, on boundary characters at every position of short templates, and on 64 KiB repetitions; "
         "dates from -2^63 to 2^63 seconds around the epoch; npdbg runs a sample of these and 10 KB / 100 KB (thorough: 1 MB) inputs in the "
-        "unoptimised build (opt-level 0), one worker process per case, so that a stack overflow or abort is attributed to its case. scale: entry points on inputs of doubling size (64 B to 4 MiB, stopped once a "
+        "unoptimised build (opt-level 0), one worker process per case, so that a stack overflow or abort is attributed to its case. scale: entry points on inputs of doubling size (one unit repeated, or a first word that needs encoding followed by the repeated unit) (64 B to 4 MiB, stopped once a "
         "run takes 1.5 s), fastest of three runs per size; super-linear = two consecutive doublings that each cost more than 3.2 times the "
         "previous size, above 20 ms. A crash of the harness process (stack overflow, abort) is reported for the chunk that caused it. "
         "Non-trivial = an input that is not valid for the entry point (it returned an error) or a scale series reaching 1 MiB; distinct = "
@@ -132,6 +132,10 @@ def gen(tier, rng):
     for e, units in SCALE_UNITS.items():
         for u in units:
             cases.append(f"scale\t{e}\t{enc(u)}\t64\t{mx}")
+    # a first word that needs encoding, then a long run of blanks (or of one other unit)
+    for e, units in {"hval": [" ", "\t", "a"], "mboxname": [" ", "a"], "cdisp": [" "], "attach": [" "], "msg": [" "]}.items():
+        for u in units:
+            cases.append(f"scale\t{e}^{enc('é')}\t{enc(u)}\t64\t{mx}")
     return cases
 
 
